@@ -17,6 +17,6 @@ CONSTANTS
  AllowCancel = TRUE
  Spe = 4
  Gen <- Gen0
- AKinds <- AllOK
+ AKinds <- OneBad
 INVARIANTS Safety
 CHECK_DEADLOCK FALSE
